@@ -19,8 +19,11 @@ def run(ctx: Ctx, chk) -> None:
     chk.rule(rule, "the live persistence path is never opened for writing (w/a/x/+: truncation or partial content becomes visible at once); it may only be the destination of an atomic replace/rename whose source was written and closed before")
     pers = ctx.cls(PERS)
     n = 0
+    seen_open: set = set()
     for fl in pers.methods.values():
         for f in fl:
+            # file access extracted into a private helper (of the class or the module) is judged where it is called
+            f = ctx.inl(f)
             cn = Canon(ctx.I, f)
             for node in ctx.own_nodes(f):
                 if not isinstance(node, ast.Call):
@@ -36,7 +39,11 @@ def run(ctx: Ctx, chk) -> None:
                         mode = _fold(ctx, f, kw.value)
                 if mode is None:
                     raise AnalysisError(f"INPLACE-1: cannot fold the open mode at {ctx.loc(f, node)}")
-                n += 1
+                if id(node) not in seen_open:
+                    seen_open.add(id(node))
+                    n += 1
+                elif f.name.startswith("_"):
+                    continue  # the helper's own copy: already judged in its caller
                 chk.instance(rule)
                 key = fkey(f, node)
                 writing = any(c in mode for c in "wax+")
